@@ -291,7 +291,7 @@ theorem borrow_respects_ltv_pledged {cfg : Cfg} {s s' : State} {u k pid : Nat} {
 /-- assets 1 (X, price 2), 2 (Y, price 1), 3 (Z, price 1), cTokens 4, 5, 6; one pool holding all three; pair 1 = (Y → Z). -/
 def cfgF : Cfg :=
   { assets := [⟨1, 1⟩, ⟨2, 1⟩, ⟨3, 1⟩, ⟨4, 1⟩, ⟨5, 1⟩, ⟨6, 1⟩],
-    rates := [⟨1, 700000000000000000, 0, 4, false, false⟩, ⟨2, 500000000000000000, 0, 5, false, false⟩, ⟨3, 800000000000000000, 0, 6, false, false⟩],
+    rates := [⟨1, 700000000000000000, 0, 4, false, false, 0, 0⟩, ⟨2, 500000000000000000, 0, 5, false, false, 0, 0⟩, ⟨3, 800000000000000000, 0, 6, false, false, 0, 0⟩],
     pools := [⟨1, 101, [⟨1, 3, 1000000000000000000000000000000000000⟩, ⟨2, 1, 1000000000000000000000000000000000000⟩, ⟨3, 2, 1000000000000000000000000000000000000⟩]⟩],
     pairs := [⟨1, 2, 3, false, 1, false⟩],
     a2p := [⟨2, 1, [1]⟩],
@@ -337,7 +337,8 @@ theorem draw_requires_pool_funds {cfg : Cfg} {s s' : State} {u k d : Nat} {y : I
 changes. (`l` is the position after the reward accrual the message itself performs.) -/
 theorem closeLend_never_releases_pledged {cfg : Cfg} {s s' : State} {u k : Nat} {r : Int} (h : closeLend cfg s u k r = .ok s') :
     s'.borrows = s.borrows ∧ (∀ b ∈ s.borrows, b.lendingId ≠ k) ∧ getLend s'.lends k = none ∧
-      ∃ s1 l, iterLends cfg s k r = .ok s1 ∧ getLend s1.lends k = some l ∧ s'.stats = addTotalLend s1.stats l.pool l.asset (-l.avail) := by
+      ∃ s1 l, iterLends cfg s k r = .ok s1 ∧ getLend s1.lends k = some l ∧
+        s'.stats = delLendId (addTotalLend s1.stats l.pool l.asset (-l.avail)) l.pool l.asset k := by
   unfold closeLend at h
   invert h
   have hb := iterLends_borrows ‹iterLends cfg s k r = .ok _›
@@ -374,7 +375,7 @@ theorem withdraw_never_releases_pledged {cfg : Cfg} {s s' : State} {u k d : Nat}
 /-- assets 1 (A), 2 (B), both price 1; cTokens 3, 4; one pool; pair 1 = (A → B). -/
 def cfgH : Cfg :=
   { assets := [⟨1, 1⟩, ⟨2, 1⟩, ⟨3, 1⟩, ⟨4, 1⟩],
-    rates := [⟨1, 500000000000000000, 0, 3, false, false⟩, ⟨2, 500000000000000000, 0, 4, false, false⟩],
+    rates := [⟨1, 500000000000000000, 0, 3, false, false, 0, 0⟩, ⟨2, 500000000000000000, 0, 4, false, false, 0, 0⟩],
     pools := [⟨1, 101, [⟨1, 1, 1000000000000000000000000000000000000⟩, ⟨2, 2, 1000000000000000000000000000000000000⟩]⟩],
     pairs := [⟨1, 1, 2, false, 1, false⟩],
     a2p := [⟨1, 1, [1]⟩],
@@ -419,7 +420,7 @@ def stateE : State := run cfgH (init cfgH bankH pricesH) [.lend 1 1 1 100 1 1 0,
 
 /-- `borrow_respects_ltv`, `borrow_requires_pool_funds`, `borrow_respects_ltv_pledged`: an accepted new borrow on a regular pair -/
 example : (borrowNew cfgH (run cfgH (init cfgH bankH pricesH) [.lend 1 1 1 100 1 1 0]) 1 ⟨1, 1, 1, 1, 100, 100, 1⟩ ⟨1, 1, 2, false, 1, false⟩
-    ⟨1, 500000000000000000, 0, 3, false, false⟩ false 3 60 2 10).toBool = true ∧ (⟨1, 1, 2, false, 1, false⟩ : PairCfg).assetIn = (⟨1, 1, 1, 1, 100, 100, 1⟩ : Lend).asset := by
+    ⟨1, 500000000000000000, 0, 3, false, false, 0, 0⟩ false 3 60 2 10).toBool = true ∧ (⟨1, 1, 2, false, 1, false⟩ : PairCfg).assetIn = (⟨1, 1, 1, 1, 100, 100, 1⟩ : Lend).asset := by
   decide
 
 /-- `draw_respects_ltv`, `draw_requires_pool_funds`: an accepted draw with accrued interest (external increments 2.5 and 0.5) -/
@@ -496,9 +497,9 @@ go to the reserve, the whole tokens of the rest are minted as cTokens and booked
 at most one token of dust stays in the pool: `⌊interest⌋ = ⌊reserve⌋ + ⌊interest − reserve⌋ + dust`, `dust ∈ {0, 1}`. -/
 theorem closeBorrow_split {cfg : Cfg} {s s' : State} {u k : Nat} {ext : ExtB} (h : closeBorrow cfg s u k ext = .ok s') :
     ∃ s1 b pair, iterBorrow s k ext = .ok s1 ∧ getBorrow s1.borrows k = some b ∧ cfg.pair? b.pairId = some pair ∧
-      s'.stats = addBorrowed (if Dec.truncateInt (b.interest - b.reserveInt) > 0
+      s'.stats = delBorrowId (addBorrowed (if Dec.truncateInt (b.interest - b.reserveInt) > 0
                               then addTotalInterest s1.stats pair.outPool pair.assetOut (Dec.truncateInt (b.interest - b.reserveInt))
-                              else s1.stats) pair.outPool pair.assetOut b.stable (-b.amountOut) ∧
+                              else s1.stats) pair.outPool pair.assetOut b.stable (-b.amountOut)) pair.outPool pair.assetOut k ∧
       (0 ≤ b.reserveInt → b.reserveInt ≤ b.interest → ∃ dust, 0 ≤ dust ∧ dust ≤ 1 ∧
         Dec.truncateInt b.interest = Dec.truncateInt b.reserveInt + Dec.truncateInt (b.interest - b.reserveInt) + dust) := by
   unfold closeBorrow at h
